@@ -292,6 +292,57 @@ def two_source_point(case):
             'counters': {'queries': nq}}
 
 
+def twin_point(case):
+    """Two (three) assets of ONE data source whose files have the same first date, last date and number of rows but
+    different days in between, asked one after the other at every instant (in both orders): an answer for one asset
+    must not be found with another asset's calendar."""
+    d = scratch_dir('qsc06t-')
+    fails, nq = [], 0
+    try:
+        names = ['XXX', 'YYY', 'ZZZ']
+        rows = {}
+        for nm, idx in zip(names, case['calendars']):
+            dates = [WINDOW[i] for i in idx]
+            base = build_rows(dates, [(1, 1)] * len(dates))
+            shift = 100.0 * names.index(nm)
+            rows[nm] = [(dd, o + shift, c + shift, 0.5 * (c + shift)) for dd, o, c, a in base]
+            market.write_csv(d, nm, rows[nm])
+        with warnings.catch_warnings():
+            warnings.simplefilter('ignore')
+            src = market.load_source(d, None, case['adjust'])
+        refs = {nm: reference(rows[nm], case['adjust']) for nm in rows}
+        order = list(rows)
+        if case['reverse']:
+            order = order[::-1]
+        for t in query_times(WINDOW):
+            ts = pd.Timestamp(t)
+            for nm in order:
+                want = ref_lookup(refs[nm], t)
+                nq += 1
+                got = [src.get_bid(ts, 'EQ:' + nm), src.get_ask(ts, 'EQ:' + nm)]
+                if not all(same(want, g) for g in got):
+                    fails.append({'clause': 'C06.lookup', 'case': dict(case, kind='twin'),
+                                  'detail': {'t': str(t), 'asset': nm, 'expected': want, 'got': [float(g) for g in got],
+                                             'asked_just_before': order[order.index(nm) - 1] if order.index(nm) else None,
+                                             'calendars': case['calendars']}})
+                    break
+            if fails:
+                break
+    except Exception as e:  # noqa
+        fails.append({'clause': 'C06.load_error', 'detail': {'error': repr(e)}, 'case': dict(case, kind='twin')})
+    finally:
+        market.clear_caches()
+        shutil.rmtree(d, ignore_errors=True)
+    return {'viols': fails, 'execs': 1, 'evals': nq, 'nontrivial': True, 'outcome': ('twin', repr(sorted(case.items()))),
+            'counters': {'queries': nq}}
+
+
+def twin_items():
+    cals = [([0, 1, 3, 4], [0, 2, 3, 4]), ([0, 1, 4], [0, 3, 4]), ([0, 1, 2, 4], [0, 1, 3, 4], [0, 2, 3, 4]), ([0, 2, 4], [0, 1, 4])]
+    return [{'calendars': [list(x) for x in c], 'adjust': adj, 'reverse': rev} for c in cals for adj in (False, True)
+            for rev in (False, True)]
+
+
 def items(tier):
     out = []
     for k in (1, 2, 3, 4):
@@ -367,6 +418,7 @@ def run(tier, res, is_known):
                         'adjusted open is missing when its scale factor is unknown']
     product(point, its, res, is_known, label='datasets', sample_every=811, chunk=8)
     product(two_source_point, two_items(), res, is_known, label='two sources / two assets')
+    product(twin_point, twin_items(), res, is_known, label='assets whose files differ only in the days in between')
     product(point, wide_items(), res, is_known, label='files spanning decades', chunk=2)
     product(point, big_items(tier), res, is_known, label='files of thousands of rows', chunk=1, sample_every=10 ** 9)
     res.transitions = res.extra.get('queries', res.transitions)
@@ -376,4 +428,6 @@ def replay(case):
     if case.get('kind') == 'two':
         c = {k: v for k, v in case.items() if k != 'kind'}
         return two_source_point(c)['viols']
+    if case.get('kind') == 'twin':
+        return twin_point({k: v for k, v in case.items() if k != 'kind'})['viols']
     return point(case)['viols']
